@@ -54,7 +54,7 @@ FAMILIES = {
     "C10": ["dec", "hist", "ck"],
     "C11": ["dec", "stream", "hist"],
     "C12": ["txt", "hist"],
-    "C13": ["stream"],
+    "C13": ["stream", "dec"],
     "C14": ["acc", "hist"],
     "C15": ["eq", "hist"],
     "C16": ["nid"],
